@@ -22,7 +22,7 @@ ASSUMPTIONS = ["nvmon.ref exact reference model", "explored domain of DESIGN.md 
 FLOORS = {'quick': {'insert-accepted': 400, 'probe-lib': 4000, 'probe-defn': 4000, 'structure': 400, 'reject-intact': 100,
                     'hook:knot_insertion': 300},
           'thorough': {'insert-accepted': 5000, 'probe-lib': 50000}}
-MANDATORY_TAGS = ['pdim1', 'pdim2', 'pdim3', 'twins', 'rational', 'on-knot', 'in-span', 'multi-dir', 'via:method', 'via:operations',
+MANDATORY_TAGS = ['large', 'pdim1', 'pdim2', 'pdim3', 'twins', 'rational', 'on-knot', 'in-span', 'multi-dir', 'via:method', 'via:operations',
                   'r>=2', 'unnormalized', 'dir:u', 'dir:v', 'dir:w', 'same-value-again', 'unclamped', 'on-domain-end', 'short-knot-range']
 TECHNIQUE = ("runtime monitoring: shadow-model oracle (exact reference of the original definition) evaluated after every step of "
              "a seeded insertion history, plus an all-call post-condition hook on helpers.knot_insertion/_kv")
@@ -131,6 +131,8 @@ def gen(rng, tier, shard, nshards):
             # an un-normalised knot vector on a very short (or long) range: tolerances of the library must be relative to that range
             a_ = rng.choice([0.0, 5.0, -2.0 ** -21])
             kw.update(normalize=False, lohi=(a_, a_ + rng.choice([2.0 ** -20, 2.0 ** -17, 2.0 ** 12])))
+        if 'lohi' not in kw and 'kvcls' not in kw and not (shard == 0 and i < len(forced)) and rng.random() < 0.06:
+            kw['large'] = True         # degree up to 10 / 40 control points; one long, high-degree direction for surfaces and volumes
         unclamped = 'kvcls' not in kw and rng.random() < 0.25
         sd = G.rand_shape(rng, pd, clamped_only=not unclamped, **(dict(kw, kvcls=rng.choice(['unclamped', 'unclamped_rep'])) if unclamped else kw))
         yield {'kind': 'history', 'sd': sd, 'seed': rng.randrange(1 << 30), 'steps': rng.randint(1, 8 if pd < 3 else 4)}
@@ -229,6 +231,8 @@ def check(case, ctx):
         ctx.tag('unclamped')
     if any(abs(kv[-1] - kv[0]) < 1e-4 for kv in sd['kvs']):
         ctx.tag('short-knot-range')
+    if sd.get('large'):
+        ctx.tag('large')
     ctx.tag('pdim%d' % pdim, 'rational' if sd['rational'] else 'nonrational',
             'normalized' if sd['normalize_kv'] else 'unnormalized')
     accepted = 0
